@@ -14,7 +14,7 @@ DEFAULT_ALPHABET = 'abcdefghijklmnopqrstuvwxyzABCDEFGHIJKLMNOPQRSTUVWXYZ01234567
 def program_info(training_file, encoding='utf-8', coverage=0.6, ngram=4, alphabet_size=100, prefixcount=False,
                  multiword=False, save_sensitive=False, rule_name='v'):
     return {
-        'name': 'PCFG Trainer', 'version': '4.7', 'author': 'x', 'contact': 'x',
+        'name': 'PCFG Trainer', 'version': '4.7', 'author': 'Matt Weir', 'contact': 'cweir@vt.edu',
         'rule_name': rule_name, 'training_file': training_file, 'encoding': encoding, 'comments': '',
         'save_sensitive': save_sensitive, 'prefixcount': prefixcount, 'ngram': ngram,
         'alphabet_size': alphabet_size, 'alphabet': DEFAULT_ALPHABET, 'smoothing': 0.01,
